@@ -9,7 +9,8 @@ Spec   : `CbiVerif.CExpr` (`Spec/CExpr.lean`) — C11 6.6/6.10.1p4 on `BitVec 64
 Bridge : `CbiVerif.EvalBridge` (`Model/EvalBridge.lean`) — `render` (token list of a parse tree after
          lexing and expansion), `mval` (C value ↦ evaluator value), the known-finding classes.
 
-Only theorems (and non-vacuity examples) live here; the lemmas are in `Lemmas/{ClimbProof,EvalArith,EvalLit,EvalMain}.lean`.
+Only theorems (and non-vacuity examples) live here; the lemmas are in
+`Lemmas/{ClimbProof,EvalArith,EvalLit,EvalChar,EvalMain,LexRoundtrip,LexSource}.lean`.
 -/
 namespace CbiVerif.C02
 open CbiVerif.PP CbiVerif.Climb CbiVerif.CExpr CbiVerif.Eval CbiVerif.EvalBridge
@@ -48,7 +49,7 @@ theorem climb_correct (n : Nat) (a : Climb.Ast Eval.Val) (h : a.WF (opsN n)) :
   simpa using this
 
 /-- … hence for every parse tree of the C grammar (`grammatical`) whose constants are legal and
-    outside the recorded classes D6/D8, the executed evaluator returns the eager value of the tree. -/
+    outside the recorded class D8, the executed evaluator returns the eager value of the tree. -/
 theorem parser_correct (env : Env) (a : CExpr.Ast) (hg : a.grammatical = true) (hl : EvalMain.leavesOK a) :
     cbiExpr (render env a) = .ok (meval env a, []) := EvalMain.cbiExpr_tree env a hg hl
 
@@ -110,33 +111,47 @@ theorem literal_value (l : Lit) (hv : l.valid = true) (v : CExpr.Val) (hc : cLit
 theorem literal_D8 (l : Lit) (hv : l.valid = true) (hk : EvalLit.bigUnsuffixed l = true) :
     Eval.literal l.spell = .error eOverflow := EvalLit.literal_big l hv hk
 
+/-- Character constants: for EVERY character constant that has a C value (plain, simple escape, `\ooo`,
+    `\xh…` with a code ≤ 255; plain `char` signed and 8 bits wide) `_character_value` of its spelling is that
+    value, and `term()` returns it with type `int`.  (Finding D6 before the repair of the code.) -/
+theorem char_value (c : CharLit) (v : CExpr.Val) (h : cChar c = some v) :
+    characterValue c.chars = .ok (mval v).v ∧ (mval v).unsigned = false ∧
+    ∀ n rest, (opsN n).leaf (chrTok (String.ofList c.chars) :: rest) = .ok (mval v, rest) := by
+  obtain ⟨h1, h2⟩ := EvalChar.chr_spec c v h
+  have hu : (mval v).unsigned = false := by rw [← h2]; exact EvalChar.chrVal_unsigned c
+  refine ⟨h1, hu, ?_⟩
+  intro n rest
+  obtain ⟨args, ha⟩ := EvalMain.ops_leaf n
+  rw [ha, EvalMain.leaf_chr args c.chars _ rest h1, ← hu]
+
 /-! ## 5. the property -/
 
 /-- value form: on every parse tree of the C grammar that is well defined in its evaluated positions
-    (`cEval env a = some v`), whose constants are legal, and that avoids the recorded classes D6/D8,
+    (`cEval env a = some v`), whose constants are legal, and that avoids the recorded class D8,
     the evaluator returns exactly the C value with the C type, for every macro environment. -/
 theorem main_value (env : Env) (a : CExpr.Ast) (hg : a.grammatical = true) (hl : EvalMain.leavesOK a)
     (v : CExpr.Val) (hv : cEval env a = some v) :
     cbiExpr (render env a) = .ok (mval v, []) := by
   rw [parser_correct env a hg hl, EvalMain.meval_spec env a hl v hv]
 
-/-- the full statement of the property on the model (no exclusion of D6/D8) -/
+/-- the full statement of the property on the model (no exclusion of D8) -/
 def main : Prop :=
   ∀ (env : Env) (a : CExpr.Ast) (v : CExpr.Val), a.grammatical = true → a.constsOK = true →
     cEval env a = some v → cbiEval (render env a) = .ok v.truth
 
-/-- proved part: `main` outside the two recorded known-finding classes (D6 escaped character
-    constants, D8 big constants without `u`).  Missing for `main`: exactly those two classes, which the
-    present code gets wrong (`main_fails_on_D6`, `main_fails_on_D8`). -/
+/-- proved part: `main` outside the one recorded known-finding class D8 (big constants without `u`;
+    kept because `tests/failure/test_bignum.py` pins the `OverflowError`).  Character constants with escape
+    sequences (finding D6 until the code was repaired) are covered.  Missing for `main`: exactly the class D8,
+    which the present code gets wrong (`main_fails_on_D8`). -/
 theorem main_partial (env : Env) (a : CExpr.Ast) (v : CExpr.Val) (hg : a.grammatical = true)
-    (hc : a.constsOK = true) (hk6 : usesEscapedChar a = false) (hk8 : usesBigUnsuffixed a = false)
+    (hc : a.constsOK = true) (hk8 : usesBigUnsuffixed a = false)
     (hv : cEval env a = some v) : cbiEval (render env a) = .ok v.truth := by
-  have h := main_value env a hg ⟨hc, hk6, hk8⟩ v hv
+  have h := main_value env a hg ⟨hc, hk8⟩ v hv
   simp only [cbiEval, h]
   congr 1
   rw [EvalArith.mval_v_ne_zero]; rfl
 
-/-! ## 6. witnesses for the recorded known-finding classes -/
+/-! ## 6. witnesses: the repaired class D6, the recorded known-finding class D8 -/
 
 def envNone : Env := fun _ => false
 def noSuffix : Suffix := ⟨.none, .none, false⟩
@@ -145,10 +160,28 @@ def witnessD6 : CExpr.Ast := .chr (.simple 'n')
 /-- `0xFFFFFFFFFFFFFFFF` -/
 def witnessD8 : CExpr.Ast := .lit ⟨.hex, false, List.replicate 16 ⟨15, true⟩, noSuffix⟩
 
-/-- D6: `'\n'` is well-formed C with value 10; the evaluator raises `TypeError` (`ord` of 2 characters) -/
-theorem main_fails_on_D6 :
+/-- the value the evaluator computes for the one-token expression `'…'` -/
+def chrResult (c : CharLit) : Except EErr (Eval.Val × List Tok) := cbiExpr (render envNone (.chr c))
+
+/-- D6 (repaired): the former witness `'\n'` evaluates to 10, and with it `'\''` = 39, `'\0'` = 0, `'\101'` = 65,
+    `'\x41'` = 65, `'\377'` = -1, `'\x80'` = -128, `'\x00041'` = 65 — signed `int`, all tokens consumed; each is
+    the C value.  `'\400'` and `'\x100'` have no C value (gcc diagnoses them) and raise `ValueError`. -/
+theorem main_holds_on_D6 :
     witnessD6.grammatical = true ∧ witnessD6.constsOK = true ∧ usesEscapedChar witnessD6 = true ∧
-    cEval envNone witnessD6 = some ⟨false, 10#64⟩ ∧ cbiEval (render envNone witnessD6) = .error eType := by decide
+    cEval envNone witnessD6 = some ⟨false, 10#64⟩ ∧ cbiEval (render envNone witnessD6) = .ok true ∧
+    chrResult (.simple 'n') = .ok (⟨false, 10⟩, []) ∧
+    chrResult (.simple '\'') = .ok (⟨false, 39⟩, []) ∧
+    chrResult (.octal [0]) = .ok (⟨false, 0⟩, []) ∧
+    chrResult (.octal [1, 0, 1]) = .ok (⟨false, 65⟩, []) ∧
+    chrResult (.hex [⟨4, false⟩, ⟨1, false⟩]) = .ok (⟨false, 65⟩, []) ∧
+    chrResult (.octal [3, 7, 7]) = .ok (⟨false, -1⟩, []) ∧ cChar (.octal [3, 7, 7]) = some ⟨false, -1#64⟩ ∧
+    chrResult (.hex [⟨8, false⟩, ⟨0, false⟩]) = .ok (⟨false, -128⟩, []) ∧
+    cChar (.hex [⟨8, false⟩, ⟨0, false⟩]) = some ⟨false, -128#64⟩ ∧
+    chrResult (.hex [⟨0, false⟩, ⟨0, false⟩, ⟨0, false⟩, ⟨4, false⟩, ⟨1, false⟩]) = .ok (⟨false, 65⟩, []) ∧
+    cChar (.octal [4, 0, 0]) = none ∧ chrResult (.octal [4, 0, 0]) = .error eValue ∧
+    cChar (.hex [⟨1, false⟩, ⟨0, false⟩, ⟨0, false⟩]) = none ∧
+    chrResult (.hex [⟨1, false⟩, ⟨0, false⟩, ⟨0, false⟩]) = .error eValue := by
+  refine ⟨?_, ?_, ?_, ?_, ?_, ?_, ?_, ?_, ?_, ?_, ?_, ?_, ?_, ?_, ?_, ?_, ?_, ?_, ?_⟩ <;> decide
 
 /-- D8: `0xFFFFFFFFFFFFFFFF` is well-formed C (unsigned, 2⁶⁴−1); the evaluator raises `OverflowError` -/
 theorem main_fails_on_D8 :
@@ -156,10 +189,11 @@ theorem main_fails_on_D8 :
     cEval envNone witnessD8 = some ⟨true, 18446744073709551615#64⟩ ∧
     cbiEval (render envNone witnessD8) = .error eOverflow := by decide
 
+/-- the full statement is false for the present code, through D8 only -/
 theorem main_refuted : ¬ main := by
   intro h
-  have := h envNone witnessD6 ⟨false, 10#64⟩ (by decide) (by decide) (by decide)
-  have h2 : cbiEval (render envNone witnessD6) = .error eType := main_fails_on_D6.2.2.2.2
+  have := h envNone witnessD8 ⟨true, 18446744073709551615#64⟩ (by decide) (by decide) (by decide)
+  have h2 : cbiEval (render envNone witnessD8) = .error eOverflow := main_fails_on_D8.2.2.2.2
   rw [h2] at this
   exact absurd this (by decide)
 
@@ -177,12 +211,17 @@ theorem lexer_tables_longest_match :
     LexRT.lexOK lpTok = true ∧ LexRT.lexOK rpTok = true := by decide
 
 /-- For every parse tree whose leaves are single lexer tokens (`lexable`: valid integer constants of any
-    base / suffix, plain or one-character-escape character constants, identifiers of letters, digits and
+    base / suffix; character constants plain, with a one-character escape, `\ooo` (1–3 octal digits) or `\xh…`
+    — every character constant that has a C value, `char_constants_lexable`; identifiers of letters, digits and
     `_`), of any size and nesting, the lexer turns the text of the tree — its source tokens separated by
     blanks — into exactly those tokens (kinds and texts), in order, nothing dropped, split or merged. -/
 theorem lexer_reads_source (a : CExpr.Ast) (h : LexSource.lexable a = true) :
     tokenize (LexRT.text (renderSrc a)) = (renderSrc a).map LexRT.norm :=
   LexRT.tokenize_text _ (LexSource.renderSrc_ok a h)
+
+/-- every character constant with a C value (`cChar c ≠ none`) is in the class of `lexer_reads_source` -/
+theorem char_constants_lexable (c : CharLit) (h : (cChar c).isSome = true) : LexSource.lexable (.chr c) = true :=
+  LexSource.chr_lexable_of_value c h
 
 /-- token-list form: any list of tokens of the accepted classes -/
 theorem lexer_roundtrip (ts : List Tok) (h : ∀ t ∈ ts, LexRT.lexOK t = true) :
@@ -204,11 +243,27 @@ def sample : CExpr.Ast :=
       (.bin .gt (.paren (.tern (num 1) (numU 2) (num 0))) (.un .neg (num 1))))
     (.defd "X" true)
 
-example : sample.grammatical = true ∧ sample.constsOK = true ∧ usesEscapedChar sample = false ∧
+example : sample.grammatical = true ∧ sample.constsOK = true ∧
     usesBigUnsuffixed sample = false ∧ cEval envNone sample = some (Val.ofBool false) := by decide
 /-- (2u > -1 is false in C: -1 converts to UINTMAX_MAX; the evaluator agrees) -/
 example : cbiEval (render envNone sample) = .ok false := by decide
 example : (render envNone sample).length = 20 := by decide
+
+/-- `'\377' + 1 == 0 && '\x41' == 'A' && '\n' < '\101'` : the hypotheses of `main_partial`, `char_value` and
+    `lexer_reads_source` hold with escaped character constants of every kind; the lexer reads each as ONE token -/
+def sampleChr : CExpr.Ast :=
+  .bin .land
+    (.bin .land
+      (.bin .eq (.bin .add (.chr (.octal [3, 7, 7])) (num 1)) (num 0))
+      (.bin .eq (.chr (.hex [⟨4, false⟩, ⟨1, false⟩])) (.chr (.plain 'A'))))
+    (.bin .lt (.chr (.simple 'n')) (.chr (.octal [1, 0, 1])))
+example : sampleChr.grammatical = true ∧ sampleChr.constsOK = true ∧ usesEscapedChar sampleChr = true ∧
+    usesBigUnsuffixed sampleChr = false ∧ cEval envNone sampleChr = some (Val.ofBool true) ∧
+    cbiEval (render envNone sampleChr) = .ok true ∧ LexSource.lexable sampleChr = true ∧
+    LexRT.text (renderSrc sampleChr) = " '\\377' + 1 == 0 && '\\x41' == 'A' && '\\n' < '\\101' " ∧
+    (tokenize (LexRT.text (renderSrc sampleChr))).map (·.text) =
+      ["\\377", "+", "1", "==", "0", "&&", "\\x41", "==", "A", "&&", "\\n", "<", "\\101"] := by decide
+example : cChar (.octal [3, 7, 7]) = some ⟨false, -1#64⟩ ∧ (cChar (.hex [⟨15, true⟩, ⟨15, false⟩])).isSome = true := by decide
 
 /-- the hypotheses of `lexer_reads_source` hold for `sample`; its text and what the lexer makes of it -/
 example : LexSource.lexable sample = true ∧
@@ -234,6 +289,6 @@ example : (⟨.hex, true, [⟨7, false⟩, ⟨15, true⟩], ⟨.U, .ll, false⟩
     (⟨.hex, true, [⟨7, false⟩, ⟨15, true⟩], ⟨.U, .ll, false⟩⟩ : Lit).spell = "0X7FllU" ∧
     cLiteral ⟨.hex, true, [⟨7, false⟩, ⟨15, true⟩], ⟨.U, .ll, false⟩⟩ = some ⟨true, 127#64⟩ := by decide
 /-- hypotheses of `climb_correct`: the tree of `sample` is well-formed for the generated table -/
-example : (toClimb envNone sample).WF (opsN 0) := EvalMain.toClimb_wf envNone 0 sample (by decide) ⟨by decide, by decide, by decide⟩
+example : (toClimb envNone sample).WF (opsN 0) := EvalMain.toClimb_wf envNone 0 sample (by decide) ⟨by decide, by decide⟩
 
 end CbiVerif.C02
